@@ -678,6 +678,32 @@ def check_tou(impl: Impl, out: Outcome, case, model_line, full_line=None, ex: Ex
         out.count("D:to_units follow-up calls", TOU_FOLLOW_UP + (2 if isinstance(snap, np.ndarray) else 0))
         if bad:
             out.violations.append(Finding("oracle:to_units_payload", rep, observed=bad[0], expected=snap_key, detail=bad[1]))
+    # a Datum DERIVED from this one (pydantic copy with another payload / another unit, taken after the original was converted) is a
+    # Datum too: its conversion is the factor times ITS payload in ITS unit, and converting it leaves the original's answers alone
+    if d is not None and res[0] == "ok" and f is not None and not isinstance(snap, np.ndarray):
+        try:
+            other = (snap * 3 + type(snap)(1)) if isinstance(snap, Decimal) else (float(snap) * 3.0 + 1.0)
+            d2 = d.copy(update={"data": other})
+            got2 = canon(("ok", d2.to_units(u2)))
+            want2 = tou_expected(f, other)
+            out.count("D:to_units on a derived copy")
+            if got2 != want2:
+                out.violations.append(Finding("oracle:to_units_derived_copy", dict(rep, derived_data=str(other)), observed=got2, expected=want2,
+                                              detail="to_units of datum.copy(update={'data': ...}) (taken after the original was converted) is not the factor times the copy's own payload"))
+            u3 = next(u for u in UNITS if u != u1)
+            d3 = d.copy(update={"units": u3})
+            f3 = impl.factor(u3, dst if u2 is not None else u3)
+            got3 = canon(("ok", d3.to_units(u2)))
+            if f3 is not None and got3 != tou_expected(f3, snap):
+                out.violations.append(Finding("oracle:to_units_derived_copy", dict(rep, derived_units=u3), observed=got3, expected=tou_expected(f3, snap),
+                                              detail="to_units of datum.copy(update={'units': ...}) is not the factor from the copy's own unit times the payload"))
+            d2.to_units(u3)
+            again = canon(("ok", d.to_units(u2)))
+            if again != ci:
+                out.violations.append(Finding("oracle:to_units_derived_copy", rep, observed=again, expected=ci,
+                                              detail="converting a derived copy changed what the original Datum converts to"))
+        except Exception as e:  # noqa
+            out.violations.append(Finding("oracle:to_units_derived_copy", rep, observed=err_class(e) + ": " + str(e)[:160], detail="copy(update=...) / to_units on the copy raised"))
     if model_line is not None and model_line != ci:
         out.mismatches.append(Finding("mismatch", rep, observed=ci, expected=model_line, detail="Datum.to_units: implementation vs Lean model"))
     if full_line is not None and ex is not None:
